@@ -44,6 +44,7 @@ def dispatch (op : String) : Option (List String → List String → Option (Str
   | "raterun.count" => some raterunOp
   | "plan" => some plan
   | "gaussvol" => some gaussvol
+  | "pipeline" => some pipelineOp
   | "calc.constant" => some (calcOp "constant")
   | "calc.ramp" => some (calcOp "ramp")
   | "calc.staged" => some (calcOp "staged")
